@@ -70,13 +70,16 @@ class CopyNop(BlockMiddleware):
 
 
 def check_wide(acc, tier):
-    """Entries of middling width: n = 1 .. 16 (thorough .. 40) distinct field keys, then key number i once more (at the
+    """Entries of middling width: n = 1 .. 40 and around 64 .. 256 (thorough .. 4096) distinct field keys, then key number i once more (at the
     end, or right after its first occurrence), for every i; a clean entry with the same entry key follows. The first is a
     duplicate-field block naming exactly that key and keeping all n + 1 fields; its key is not live, so the second is."""
-    top = 16 if tier == "quick" else 40
-    for n in range(1, top + 1):
+    # every width up to 40 with every repeated position; then the widths around the powers of two a container would switch
+    # at, with the repeated key first occurring at the positions around those thresholds (and at both ends)
+    widths = list(range(1, 41)) + [63, 64, 65, 66, 127, 128, 129, 130, 255, 256, 257, 258] + ([1023, 1024, 1025, 1026, 4095, 4096, 4097, 4098] if tier == "thorough" else [])
+    near = sorted({0, 1, 2} | {p + d for p in (16, 32, 64, 128, 256, 1024, 4096) for d in (-2, -1, 0, 1, 2)})
+    for n in widths:
         keys = [f"f{i:02d}" for i in range(n)]
-        for i in range(n):
+        for i in range(n) if n <= 40 else sorted({x for x in near if x < n} | {n - 2, n - 1}):
             for where in ("end", "next"):
                 fields = [(k, "{%d}" % j) for j, k in enumerate(keys)]
                 rep = (keys[i], "{again}")
@@ -346,7 +349,7 @@ def replay(case, acc):
     if "two_docs" in case:
         return check_two_docs(acc)
     if "wide" in case:
-        return check_wide(acc, "quick" if case["wide"] <= 16 else "thorough")
+        return check_wide(acc, "quick" if case["wide"] <= 258 else "thorough")
     check_doc(tuple(case["ids"]), case["sep"], acc, case)
 
 
